@@ -255,10 +255,109 @@ let parse_inflate (w : string) : ((string * string) * n list option) list =
         ((z, hex_of_n (n_of_hex n)), res)
     | _ -> failwith "bad inflate table entry") (split_on ',' body)
 
+(* ---- the library text of harness/c04w.cpp (parser of ocaml/c04w_driver.ml) *)
+exception Parse of string
+
+let toks = ref [||]
+let pos = ref 0
+let next () =
+  if !pos >= Array.length !toks then raise (Parse "unexpected end");
+  let t = (!toks).(!pos) in incr pos; t
+let num () = n_of_hex (next ())
+let znum () = z_of_hex (next ())
+let count () = int_of_n (num ())
+let bytes () = let t = next () in if t = "-" then [] else bytes_of_hex t
+let rec times n f = if n <= 0 then [] else let x = f () in x :: times (n - 1) f
+
+let value () =
+  match next () with
+  | "U" -> VUInt (num ())
+  | "I" -> VInt (znum ())
+  | "R" -> VReal (num ())
+  | "S" -> VStr (bytes ())
+  | t -> raise (Parse ("value kind " ^ t))
+let props () =
+  let n = count () in
+  times n (fun () -> let name = bytes () in let nv = count () in let vs = times nv value in (name, vs))
+let point () = let x = znum () in let y = znum () in (x, y)
+let rep () =
+  match next () with
+  | "N" -> WNone
+  | "R" -> let c = num () in let r = num () in let sx = znum () in let sy = znum () in WRect (c, r, sx, sy)
+  | "G" -> let c = num () in let r = num () in let v1 = point () in let v2 = point () in WReg (c, r, v1, v2)
+  | "E" -> let n = count () in WExpl (times n point)
+  | "X" -> let n = count () in WExplX (times n znum)
+  | "Y" -> let n = count () in WExplY (times n znum)
+  | t -> raise (Parse ("repetition kind " ^ t))
+let points () = let n = count () in times n point
+
+let poly () =
+  let layer = num () in let ty = num () in let pts = points () in let r = rep () in let ps = props () in
+  { py_layer = layer; py_type = ty; py_pts = pts; py_rep = r; py_props = ps }
+let pel () =
+  let layer = num () in let ty = num () in let hw = num () in
+  let e = (match next () with
+    | "F" -> WE_flush | "H" -> WE_half
+    | "E" -> let a = znum () in let b = znum () in WE_ext (a, b)
+    | t -> raise (Parse ("end kind " ^ t))) in
+  { pe_layer = layer; pe_type = ty; pe_hw = hw; pe_end = e }
+let path () =
+  let n = count () in let els = times n pel in let pts = points () in let r = rep () in let ps = props () in
+  { ph_els = els; ph_pts = pts; ph_rep = r; ph_props = ps }
+let reference () =
+  let name = bytes () in let x = znum () in let y = znum () in let mag = num () in let rot = num () in
+  let q = (let t = next () in if t = "-" then None else Some (z_of_hex t)) in
+  let flip = (next () = "1") in let r = rep () in let ps = props () in
+  { rf_name = name; rf_x = x; rf_y = y; rf_mag = mag; rf_rot = rot; rf_quarter = q; rf_flip = flip; rf_rep = r;
+    rf_props = ps }
+let label () =
+  let text = bytes () in let layer = num () in let ty = num () in let x = znum () in let y = znum () in
+  let r = rep () in let ps = props () in
+  { lb_text = text; lb_layer = layer; lb_type = ty; lb_x = x; lb_y = y; lb_rep = r; lb_props = ps }
+let cell () =
+  let name = bytes () in
+  let np = count () in let polys = times np poly in
+  let nh = count () in let paths = times nh path in
+  let nr = count () in let refs = times nr reference in
+  let nl = count () in let labels = times nl label in
+  let ps = props () in
+  { cl_name = name; cl_polys = polys; cl_paths = paths; cl_refs = refs; cl_labels = labels; cl_props = ps }
+let library () =
+  let cfg = (next () = "1") in
+  let u = num () in
+  let ps = props () in
+  let nc = count () in let cells = times nc cell in
+  (cfg, { li_unit = u; li_props = ps; li_cells = cells })
+
+
+(* "D<entries>": (cell body hex, deflated bytes) *)
+let parse_deflate (w : string) : (string * n list) list =
+  let body = String.sub w 1 (String.length w - 1) in
+  List.map (fun e ->
+    match String.split_on_char '/' e with
+    | [b; z] -> (b, bytes_of_hex z)
+    | _ -> failwith "bad deflate table entry") (split_on ',' body)
+
 let () =
   iter_cases Sys.argv.(1) (fun id kind payload ->
     let ws = words payload in
-    if String.length kind >= 3 && String.sub kind 0 3 = "rdc" then begin
+    if kind = "wrc" then begin
+      (try
+        let (head, text) = (match String.index_opt payload '|' with
+          | Some i -> (String.sub payload 0 i, String.sub payload (i + 1) (String.length payload - i - 1))
+          | None -> ("", payload)) in
+        let hw = words head in
+        let table = parse_deflate (List.nth hw (List.length hw - 1)) in
+        let deflate (b : n list) : n list =
+          match List.assoc_opt (hex_of_bytes b) table with Some z -> z | None -> raise Miss in
+        toks := Array.of_list (words text);
+        pos := 0;
+        let (cfg, l) = library () in
+        if !pos <> Array.length !toks then raise (Parse "trailing words");
+        out id "M" (try hex_of_bytes (write_oas_model_c deflate cfg l) with Miss -> "tablemiss")
+      with Parse m -> out id "M" ("bad-case " ^ m))
+    end
+    else if String.length kind >= 3 && String.sub kind 0 3 = "rdc" then begin
       let w = List.nth ws (List.length ws - 1) in
       let w = if String.length w > 0 && w.[0] = 'x' then String.sub w 1 (String.length w - 1) else w in
       let bs = bytes_of_hex w in
